@@ -295,6 +295,16 @@ func Pages(r *rng.R, n int) Result {
 					ents := exported.DispatcherGenesis.DispatchedAmounts
 					if len(ents) > 0 && cr.Chance(75) {
 						e := ents[cr.Intn(len(ents))]
+						// entries with one side zero (what a denomination-changing action leaves) are looked up as often as the others
+						var oneSided []int
+						for i := range ents {
+							if ents[i].AmountDispatched.Incoming.IsZero() != ents[i].AmountDispatched.Outgoing.IsZero() {
+								oneSided = append(oneSided, i)
+							}
+						}
+						if len(oneSided) > 0 && cr.Chance(50) {
+							e = ents[oneSided[cr.Intn(len(oneSided))]]
+						}
 						req = dispatchertypes.QueryDispatchedAmountsRequest{SourceProtocolId: e.SourceId.ProtocolId.String(), SourceCounterpartyId: e.SourceId.CounterpartyId,
 							DestinationProtocolId: e.DestinationId.ProtocolId.String(), DestinationCounterpartyId: e.DestinationId.CounterpartyId, Denom: e.Denom}
 						if cr.Chance(25) {
